@@ -77,39 +77,40 @@ Proof.
 Qed.
 
 (* ---------------------------------------------------------------- the list nodes an axis points at *)
-(* [ax_all Q p c d axis]: every list node reached by the at-axis descent satisfies [Q] (true where the descent
+(* [ax_all Q u p c d axis]: every list node reached by the at-axis descent satisfies [Q] (true where the descent
    fails).  This is the form in which per-operation fragments are stated: a boolean predicate of layout and axis. *)
-Fixpoint ax_all (Q : option akind -> content -> bool) (p : option akind) (c : content) (d axis : Z) {struct c} : bool :=
+Fixpoint ax_all (Q : bool -> option akind -> content -> bool) (u : bool) (p : option akind) (c : content) (d axis : Z)
+                {struct c} : bool :=
   match resolve_axis (type_of_p p c) d axis with
   | Err _ => true
   | Ok ax =>
       match c with
       | Numpy _ _ _ | Empty => true
       | ListOffset _ _ c' | ListA _ _ _ c' | Regular c' _ _ =>
-          if ax =? d + 1 then Q p c else ax_all Q None c' (d + 1) ax
+          if ax =? d + 1 then Q u p c else ax_all Q false None c' (d + 1) ax
       | Indexed _ _ c' | IndexedOption _ _ c' | ByteMasked _ _ c' | BitMasked _ _ _ _ c' | Unmasked c' =>
-          ax_all Q None c' d ax
+          ax_all Q true None c' d ax
       | Union _ _ _ cs | Record cs _ _ =>
           (fix all (l : list content) : bool :=
-             match l with [] => true | x :: xs => ax_all Q None x d ax && all xs end) cs
-      | Par a _ c' => ax_all Q a c' d ax
+             match l with [] => true | x :: xs => ax_all Q false None x d ax && all xs end) cs
+      | Par a _ c' => ax_all Q u a c' d ax
       end
   end.
-Definition ax_frag (Q : option akind -> content -> bool) (c : content) (axis : Z) : bool :=
-  ax_all Q None (expand c) 0 axis.
+Definition ax_frag (Q : bool -> option akind -> content -> bool) (c : content) (axis : Z) : bool :=
+  ax_all Q false None (expand c) 0 axis.
 
-Definition ax_body (Q : option akind -> content -> bool) (p : option akind) (c : content) (d ax : Z) : bool :=
+Definition ax_body (Q : bool -> option akind -> content -> bool) (u : bool) (p : option akind) (c : content) (d ax : Z) : bool :=
   match c with
   | Numpy _ _ _ | Empty => true
   | ListOffset _ _ c' | ListA _ _ _ c' | Regular c' _ _ =>
-      if ax =? d + 1 then Q p c else ax_all Q None c' (d + 1) ax
+      if ax =? d + 1 then Q u p c else ax_all Q false None c' (d + 1) ax
   | Indexed _ _ c' | IndexedOption _ _ c' | ByteMasked _ _ c' | BitMasked _ _ _ _ c' | Unmasked c' =>
-      ax_all Q None c' d ax
-  | Union _ _ _ cs | Record cs _ _ => forallb (fun x => ax_all Q None x d ax) cs
-  | Par a _ c' => ax_all Q a c' d ax
+      ax_all Q true None c' d ax
+  | Union _ _ _ cs | Record cs _ _ => forallb (fun x => ax_all Q false None x d ax) cs
+  | Par a _ c' => ax_all Q u a c' d ax
   end.
-Lemma ax_all_eq Q p c d axis :
-  ax_all Q p c d axis = match resolve_axis (type_of_p p c) d axis with Err _ => true | Ok ax => ax_body Q p c d ax end.
+Lemma ax_all_eq Q u p c d axis :
+  ax_all Q u p c d axis = match resolve_axis (type_of_p p c) d axis with Err _ => true | Ok ax => ax_body Q u p c d ax end.
 Proof.
   destruct c; try reflexivity; cbn [ax_all ax_body]; destruct (resolve_axis _ d axis) as [ax|]; try reflexivity;
     induction cs as [|x xs IH]; try reflexivity; cbn [forallb]; rewrite <- IH; reflexivity.
@@ -126,10 +127,14 @@ Qed.
 (* ---------------------------------------------------------------- the generic closure statement *)
 (* what the descent needs from a rebuilt sub-layout: valid, not shorter, and of a node class that may sit where
    the original sat *)
-Definition fits (c c' : content) : Prop :=
+(* [u] = "directly below an option-type / indexed node": only there must the class stay non-option *)
+Definition fits (u : bool) (c c' : content) : Prop :=
   Valid None c' /\ clen c <= clen c' /\
-  (optionlike c = false -> optionlike c' = false) /\ (unionlike c = false -> unionlike c' = false).
+  (u = true -> optionlike c = false -> optionlike c' = false) /\ (unionlike c = false -> unionlike c' = false).
 Definition plain (c' : content) : Prop := optionlike c' = false /\ unionlike c' = false.
+Definition uplain (u : bool) (c' : content) : Prop := (u = true -> optionlike c' = false) /\ unionlike c' = false.
+Lemma plain_uplain u c' : plain c' -> uplain u c'.
+Proof. intros [A B]. split; auto. Qed.
 
 Lemma pair_ok_mono lc lc' ab : lc <= lc' -> pair_ok lc ab -> pair_ok lc' ab.
 Proof. unfold pair_ok. lia. Qed.
@@ -138,19 +143,19 @@ Section ClosureAx.
   Variable g : option akind -> content -> res content.
   Variable unk : res content.
   Variable str_ok : bool.
-  Variable Q : option akind -> content -> bool.
-  Hypothesis Hg : forall p c cc c',
-    Valid p c -> list_content c = Some cc -> Q p c = true -> (is_strk p = true -> str_ok = true) ->
-    g p c = Ok c' -> Valid None c' /\ clen c <= clen c' /\ plain c'.
+  Variable Q : bool -> option akind -> content -> bool.
+  Hypothesis Hg : forall u p c cc c',
+    Valid p c -> list_content c = Some cc -> Q u p c = true -> (is_strk p = true -> str_ok = true) ->
+    g p c = Ok c' -> Valid None c' /\ clen c <= clen c' /\ uplain u c'.
   Hypothesis Hunk : forall c', unk = Ok c' -> Valid None c' /\ 0 <= clen c' /\ plain c'.
 
   Let MA := model_axp g unk str_ok.
 
-  Lemma gs_fits p c cc c' :
-    Valid p c -> list_content c = Some cc -> Q p c = true -> gs g str_ok p c = Ok c' -> fits c c'.
+  Lemma gs_fits u p c cc c' :
+    Valid p c -> list_content c = Some cc -> Q u p c = true -> gs g str_ok p c = Ok c' -> fits u c c'.
   Proof.
     intros HV Hc HQ H. unfold gs in H. destruct (is_strk p && negb str_ok) eqn:E; [discriminate|].
-    destruct (Hg p c cc c' HV Hc HQ) as (H1 & H2 & H3 & H4); [destruct (is_strk p), str_ok; auto; discriminate|exact H|].
+    destruct (Hg u p c cc c' HV Hc HQ) as (H1 & H2 & H3 & H4); [destruct (is_strk p), str_ok; auto; discriminate|exact H|].
     repeat split; auto.
   Qed.
 
@@ -165,12 +170,12 @@ Section ClosureAx.
     - split; [eapply ParamOk_nostr; eassumption|auto].
   Qed.
 
-  Lemma model_axp_valid_all c : forall p d axis c',
-    Valid p c -> ax_all Q p c d axis = true -> MA p c d axis = Ok c' -> fits c c'.
+  Lemma model_axp_valid_all c : forall u p d axis c',
+    Valid p c -> ax_all Q u p c d axis = true -> MA p c d axis = Ok c' -> fits u c c'.
   Proof.
     induction c as [dt shape data| |w o c IHc|w s e c IHc|c size zl IHc|w ix c IHc|w ix c IHc|m vw c IHc
                    |m vw lsb n c IHc|c IHc|w t ix cs IHcs|cs ks n IHcs|arr rn c IHc] using content_ind';
-      intros p d axis c' HV HQ H; pose proof HV as HV0; inversion HV; subst;
+      intros u p d axis c' HV HQ H; pose proof HV as HV0; inversion HV; subst;
       unfold MA in H; rewrite model_axp_eq in H; apply bind_Ok in H as (ax & Hax & H);
       rewrite ax_all_eq, Hax in HQ; cbn [model_body] in H; cbn [ax_body] in HQ.
     - discriminate.
@@ -180,7 +185,7 @@ Section ClosureAx.
       apply rmap_Ok in H as (c'' & Hc'' & ->).
       match goal with Hp : ParamOk p _, Hs : _ -> Valid None c |- _ =>
         destruct (below_list p _ c _ _ _ Hp eq_refl Hs Hc'') as [-> HVc] end.
-      destruct (IHc None _ _ _ HVc HQ Hc'') as (X1 & X2 & X3 & X4).
+      destruct (IHc _ None _ _ _ HVc HQ Hc'') as (X1 & X2 & X3 & X4).
       split; [|split; [cbn [clen]; lia|split; reflexivity]].
       constructor; [exact I|assumption| |intros _; exact X1].
       match goal with Hf : Forall (pair_ok (clen c)) _ |- _ => eapply Forall_impl; [|exact Hf] end.
@@ -190,7 +195,7 @@ Section ClosureAx.
       apply rmap_Ok in H as (c'' & Hc'' & ->).
       match goal with Hp : ParamOk p _, Hs : _ -> Valid None c |- _ =>
         destruct (below_list p _ c _ _ _ Hp eq_refl Hs Hc'') as [-> HVc] end.
-      destruct (IHc None _ _ _ HVc HQ Hc'') as (X1 & X2 & X3 & X4).
+      destruct (IHc _ None _ _ _ HVc HQ Hc'') as (X1 & X2 & X3 & X4).
       split; [|split; [cbn [clen]; lia|split; reflexivity]].
       constructor; [exact I|assumption| |intros _; exact X1].
       match goal with Hf : Forall (pair_ok (clen c)) _ |- _ => eapply Forall_impl; [|exact Hf] end.
@@ -200,49 +205,49 @@ Section ClosureAx.
       apply rmap_Ok in H as (c'' & Hc'' & ->).
       match goal with Hp : ParamOk p _, Hs : _ -> Valid None c |- _ =>
         destruct (below_list p _ c _ _ _ Hp eq_refl Hs Hc'') as [-> HVc] end.
-      destruct (IHc None _ _ _ HVc HQ Hc'') as (X1 & X2 & X3 & X4).
+      destruct (IHc _ None _ _ _ HVc HQ Hc'') as (X1 & X2 & X3 & X4).
       split; [constructor; [exact I|assumption|assumption|intros _; exact X1]|].
       split; [|split; reflexivity].
       cbn [clen]. destruct (size =? 0) eqn:Ez; [lia|]. apply Z.div_le_mono; lia.
     - (* Indexed *)
       match goal with Hp : ParamOk p _ |- _ => pose proof (ParamOk_nonlist _ _ Hp eq_refl); subst p end.
       apply rmap_Ok in H as (c'' & Hc'' & ->).
-      match goal with HVc : Valid None c |- _ => destruct (IHc None _ _ _ HVc HQ Hc'') as (X1 & X2 & X3 & X4) end.
+      match goal with HVc : Valid None c |- _ => destruct (IHc _ None _ _ _ HVc HQ Hc'') as (X1 & X2 & X3 & X4) end.
       split; [|split; [cbn [clen]; lia|split; [discriminate|reflexivity]]].
       constructor; [exact I| |auto|exact X1].
       match goal with Hf : Forall _ ix |- _ => eapply Forall_impl; [|exact Hf] end. cbv beta. intros i Hi. lia.
     - (* IndexedOption *)
       match goal with Hp : ParamOk p _ |- _ => pose proof (ParamOk_nonlist _ _ Hp eq_refl); subst p end.
       apply rmap_Ok in H as (c'' & Hc'' & ->).
-      match goal with HVc : Valid None c |- _ => destruct (IHc None _ _ _ HVc HQ Hc'') as (X1 & X2 & X3 & X4) end.
+      match goal with HVc : Valid None c |- _ => destruct (IHc _ None _ _ _ HVc HQ Hc'') as (X1 & X2 & X3 & X4) end.
       split; [|split; [cbn [clen]; lia|split; [discriminate|reflexivity]]].
       constructor; [exact I| |auto|exact X1].
       match goal with Hf : Forall _ ix |- _ => eapply Forall_impl; [|exact Hf] end. cbv beta. intros i Hi. lia.
     - (* ByteMasked *)
       match goal with Hp : ParamOk p _ |- _ => pose proof (ParamOk_nonlist _ _ Hp eq_refl); subst p end.
       apply rmap_Ok in H as (c'' & Hc'' & ->).
-      match goal with HVc : Valid None c |- _ => destruct (IHc None _ _ _ HVc HQ Hc'') as (X1 & X2 & X3 & X4) end.
+      match goal with HVc : Valid None c |- _ => destruct (IHc _ None _ _ _ HVc HQ Hc'') as (X1 & X2 & X3 & X4) end.
       split; [|split; [cbn [clen]; lia|split; [discriminate|reflexivity]]].
       constructor; [exact I|lia|auto|exact X1].
     - (* BitMasked *)
       match goal with Hp : ParamOk p _ |- _ => pose proof (ParamOk_nonlist _ _ Hp eq_refl); subst p end.
       apply rmap_Ok in H as (c'' & Hc'' & ->).
-      match goal with HVc : Valid None c |- _ => destruct (IHc None _ _ _ HVc HQ Hc'') as (X1 & X2 & X3 & X4) end.
+      match goal with HVc : Valid None c |- _ => destruct (IHc _ None _ _ _ HVc HQ Hc'') as (X1 & X2 & X3 & X4) end.
       split; [|split; [cbn [clen]; lia|split; [discriminate|reflexivity]]].
       constructor; [exact I|assumption|assumption|lia|auto|exact X1].
     - (* Unmasked *)
       match goal with Hp : ParamOk p _ |- _ => pose proof (ParamOk_nonlist _ _ Hp eq_refl); subst p end.
       apply rmap_Ok in H as (c'' & Hc'' & ->).
-      match goal with HVc : Valid None c |- _ => destruct (IHc None _ _ _ HVc HQ Hc'') as (X1 & X2 & X3 & X4) end.
+      match goal with HVc : Valid None c |- _ => destruct (IHc _ None _ _ _ HVc HQ Hc'') as (X1 & X2 & X3 & X4) end.
       split; [|split; [cbn [clen]; lia|split; [discriminate|reflexivity]]].
       constructor; [exact I|auto|exact X1].
     - (* Union *)
       match goal with Hp : ParamOk p _ |- _ => pose proof (ParamOk_nonlist _ _ Hp eq_refl); subst p end.
       apply rmap_Ok in H as (cs' & Hcs' & ->).
       match goal with HVs : Forall (Valid None) cs |- _ => rename HVs into HVs0 end.
-      assert (HF : Forall2 fits cs cs').
+      assert (HF : Forall2 (fits false) cs cs').
       { eapply mapM_Forall2_P; [exact Hcs'|]. intros x y Hx Hy. rewrite Forall_forall in IHcs, HVs0.
-        rewrite forallb_forall in HQ. eapply (IHcs x Hx None); [auto|apply HQ, Hx|exact Hy]. }
+        rewrite forallb_forall in HQ. eapply (IHcs x Hx false None); [auto|apply HQ, Hx|exact Hy]. }
       split; [|split; [cbn [clen]; lia|split; [reflexivity|discriminate]]].
       constructor; [exact I| |assumption| |].
       + match goal with Hu : Forall (fun x => unionlike x = false) cs |- _ => rewrite Forall_forall in Hu; rename Hu into Hu0 end.
@@ -257,9 +262,9 @@ Section ClosureAx.
       match goal with Hp : ParamOk p _ |- _ => pose proof (ParamOk_nonlist _ _ Hp eq_refl); subst p end.
       apply rmap_Ok in H as (cs' & Hcs' & ->).
       match goal with HVs : Forall (Valid None) cs |- _ => rename HVs into HVs0 end.
-      assert (HF : Forall2 fits cs cs').
+      assert (HF : Forall2 (fits false) cs cs').
       { eapply mapM_Forall2_P; [exact Hcs'|]. intros x y Hx Hy. rewrite Forall_forall in IHcs, HVs0.
-        rewrite forallb_forall in HQ. eapply (IHcs x Hx None); [auto|apply HQ, Hx|exact Hy]. }
+        rewrite forallb_forall in HQ. eapply (IHcs x Hx false None); [auto|apply HQ, Hx|exact Hy]. }
       split; [|split; [cbn [clen]; lia|split; reflexivity]].
       constructor; [exact I|assumption| | |].
       + match goal with Hn : Forall (fun x => n <= clen x) cs |- _ => rewrite Forall_forall in Hn; rename Hn into Hn0 end.
@@ -267,7 +272,7 @@ Section ClosureAx.
       + intros k Hk. rewrite (Forall2_length _ _ _ HF). auto.
       + eapply Forall2_Forall_r; [exact HF|]. cbv beta. intros x y _ (X1 & _). exact X1.
     - (* Par *)
-      match goal with HVc : Valid arr c |- _ => destruct (IHc arr _ _ _ HVc HQ H) as (X1 & X2 & X3 & X4) end.
+      match goal with HVc : Valid arr c |- _ => destruct (IHc u arr _ _ _ HVc HQ H) as (X1 & X2 & X3 & X4) end.
       split; [exact X1|]. split; [cbn [clen]; exact X2|]. split.
       + rewrite optionlike_Par. exact X3.
       + unfold unionlike at 1. cbn [strip]. exact X4.
@@ -278,7 +283,7 @@ Section ClosureAx.
     Valid None c' /\ clen c <= clen c'.
   Proof.
     intros HV HQ H. unfold model_ax in H.
-    destruct (model_axp_valid_all (expand c) None 0 axis c' (expand_valid_p c None HV) HQ H) as (X1 & X2 & _).
+    destruct (model_axp_valid_all (expand c) false None 0 axis c' (expand_valid_p c None HV) HQ H) as (X1 & X2 & _).
     rewrite clen_expand in X2. auto.
   Qed.
 End ClosureAx.
@@ -342,24 +347,24 @@ Lemma lens_of_nonneg lc bs : Forall (pair_ok lc) bs -> Forall (fun n => 0 <= n) 
 Proof. intros H. apply Forall_map. eapply Forall_impl; [|exact H]. unfold pair_ok. intros ab. lia. Qed.
 
 (* ---------------------------------------------------------------- num *)
-Definition Qtrue (_ : option akind) (_ : content) : bool := true.
+Definition Qtrue (_ : bool) (_ : option akind) (_ : content) : bool := true.
 
-Lemma num_Hgv p c cc c' :
-  Valid p c -> list_content c = Some cc -> Qtrue p c = true -> (is_strk p = true -> true = true) ->
-  num_g p c = Ok c' -> Valid None c' /\ clen c <= clen c' /\ plain c'.
+Lemma num_Hgv u p c cc c' :
+  Valid p c -> list_content c = Some cc -> Qtrue u p c = true -> (is_strk p = true -> true = true) ->
+  num_g p c = Ok c' -> Valid None c' /\ clen c <= clen c' /\ uplain u c'.
 Proof.
   intros HV _ _ _ H. unfold num_g in H. apply bind_Ok in H as ([bs cc0] & Hb & H). inversion H; subst.
   destruct (list_bounds_valid _ _ _ _ HV Hb) as (_ & Hn & _). destruct (np64_valid (lens_of bs)) as (X1 & X2 & X3).
-  split; [exact X1|]. split; [|exact X3]. rewrite X2. cbn [fst]. unfold lens_of. rewrite zlen_map. exact Hn.
+  split; [exact X1|]. split; [|apply plain_uplain, X3]. rewrite X2. cbn [fst]. unfold lens_of. rewrite zlen_map. exact Hn.
 Qed.
 Lemma unk_np64 c' : Ok (np64 []) = Ok c' -> Valid None c' /\ 0 <= clen c' /\ plain c'.
 Proof. intros H. inversion H; subst. destruct (np64_valid []) as (X1 & X2 & X3).
   split; [exact X1|split; [rewrite X2; apply zlen_nonneg|exact X3]].
 Qed.
 
-Lemma ax_all_Qtrue c : forall p d axis, ax_all Qtrue p c d axis = true.
+Lemma ax_all_Qtrue c : forall u p d axis, ax_all Qtrue u p c d axis = true.
 Proof.
-  induction c using content_ind'; intros p d axis; rewrite ax_all_eq; destruct (resolve_axis _ d axis) as [ax|]; try reflexivity;
+  induction c using content_ind'; intros u p d axis; rewrite ax_all_eq; destruct (resolve_axis _ d axis) as [ax|]; try reflexivity;
     cbn [ax_body]; auto; try (destruct (ax =? d + 1); [reflexivity|auto]);
     apply forallb_forall; intros x Hx; rewrite Forall_forall in H; apply H, Hx.
 Qed.
@@ -369,16 +374,16 @@ Theorem num_preserves_valid : forall axis c c',
   Valid None c -> num_model axis c = Ok c' -> Valid None c'.
 Proof.
   intros axis c c' HV H.
-  exact (proj1 (model_ax_valid num_g (Ok (np64 [])) true Qtrue num_Hgv unk_np64 c axis c' HV (ax_all_Qtrue _ _ _ _) H)).
+  exact (proj1 (model_ax_valid num_g (Ok (np64 [])) true Qtrue num_Hgv unk_np64 c axis c' HV (ax_all_Qtrue _ _ _ _ _) H)).
 Qed.
 
 (* ---------------------------------------------------------------- local_index *)
 Lemma zlen_iotas lens : Forall (fun n => 0 <= n) lens -> map zlen (map iota lens) = lens.
 Proof. induction 1 as [|n ns Hn _ IH]; [reflexivity|]. cbn [map]. rewrite IH, zlen_iota by exact Hn. reflexivity. Qed.
 
-Lemma localindex_Hgv p c cc c' :
-  Valid p c -> list_content c = Some cc -> Qtrue p c = true -> (is_strk p = true -> true = true) ->
-  localindex_g p c = Ok c' -> Valid None c' /\ clen c <= clen c' /\ plain c'.
+Lemma localindex_Hgv u p c cc c' :
+  Valid p c -> list_content c = Some cc -> Qtrue u p c = true -> (is_strk p = true -> true = true) ->
+  localindex_g p c = Ok c' -> Valid None c' /\ clen c <= clen c' /\ uplain u c'.
 Proof.
   intros HV _ _ _ H. unfold localindex_g in H. apply bind_Ok in H as ([bs cc0] & Hb & H). cbn [fst] in H. inversion H; subst.
   destruct (list_bounds_valid _ _ _ _ HV Hb) as (_ & Hn & Hp & _). pose proof (lens_of_nonneg _ _ Hp) as Hl.
@@ -392,7 +397,7 @@ Theorem localindex_preserves_valid : forall axis c c',
   Valid None c -> localindex_model axis c = Ok c' -> Valid None c'.
 Proof.
   intros axis c c' HV H.
-  exact (proj1 (model_ax_valid localindex_g (Ok (np64 [])) true Qtrue localindex_Hgv unk_np64 c axis c' HV (ax_all_Qtrue _ _ _ _) H)).
+  exact (proj1 (model_ax_valid localindex_g (Ok (np64 [])) true Qtrue localindex_Hgv unk_np64 c axis c' HV (ax_all_Qtrue _ _ _ _ _) H)).
 Qed.
 
 (* ---------------------------------------------------------------- pad_none *)
@@ -400,7 +405,7 @@ Qed.
    IndexedOptionArray as it is: the result is invalid when that content is already option-type, and when the list is a
    string (its characters are tagged "char", which is only legal directly below a string node).  [Qpad] excludes both,
    and degenerate negative-length contents (possible only through unchecked character buffers). *)
-Definition Qpad (p : option akind) (c : content) : bool :=
+Definition Qpad (_ : bool) (p : option akind) (c : content) : bool :=
   negb (is_strk p) &&
   match list_content c with Some cc => negb (optionlike cc) && (0 <=? clen cc) | None => false end.
 
@@ -424,20 +429,20 @@ Proof.
   rewrite Forall_forall in Hp. destruct (pad_index_In _ _ _ _ _ (Hp ab Hab) Hx); lia.
 Qed.
 
-Lemma Qpad_inv p c cc : Valid p c -> list_content c = Some cc -> Qpad p c = true ->
+Lemma Qpad_inv u p c cc : Valid p c -> list_content c = Some cc -> Qpad u p c = true ->
   p = None /\ optionlike cc = false /\ 0 <= clen cc.
 Proof.
   intros HV Hc HQ. unfold Qpad in HQ. rewrite Hc in HQ.
   destruct (Valid_param _ _ HV) as [->|Hs]; [|rewrite Hs in HQ; discriminate]. split; [reflexivity|]. lia.
 Qed.
 
-Lemma rpad_Hgv target p c cc c' :
-  Valid p c -> list_content c = Some cc -> Qpad p c = true -> (is_strk p = true -> true = true) ->
-  rpad_g target p c = Ok c' -> Valid None c' /\ clen c <= clen c' /\ plain c'.
+Lemma rpad_Hgv target u p c cc c' :
+  Valid p c -> list_content c = Some cc -> Qpad u p c = true -> (is_strk p = true -> true = true) ->
+  rpad_g target p c = Ok c' -> Valid None c' /\ clen c <= clen c' /\ uplain u c'.
 Proof.
   intros HV Hc HQ _ H. unfold rpad_g in H. apply bind_Ok in H as ([bs cc0] & Hb & H). cbn [fst snd] in H. inversion H; subst.
   destruct (list_bounds_valid _ _ _ _ HV Hb) as (Hc0 & Hn & Hp & Hvc). rewrite Hc in Hc0. inversion Hc0; subst cc0.
-  destruct (Qpad_inv _ _ _ HV Hc HQ) as (-> & Ho & Hcc).
+  destruct (Qpad_inv _ _ _ _ HV Hc HQ) as (-> & Ho & Hcc).
   split; [|split; [|split; reflexivity]].
   - apply offsets_valid; [apply zlens_nonneg|rewrite sumZ_zlen_concat; cbn [clen]; lia|].
     apply pad_content_valid; auto.
@@ -460,14 +465,14 @@ Proof.
   apply zlen_take. rewrite zlen_app, zlen_repeatZ, zlen_range by lia. lia.
 Qed.
 
-Lemma rpadclip_Hgv target : 0 <= target -> forall p c cc c',
-  Valid p c -> list_content c = Some cc -> Qpad p c = true -> (is_strk p = true -> true = true) ->
-  rpadclip_g target p c = Ok c' -> Valid None c' /\ clen c <= clen c' /\ plain c'.
+Lemma rpadclip_Hgv target : 0 <= target -> forall u p c cc c',
+  Valid p c -> list_content c = Some cc -> Qpad u p c = true -> (is_strk p = true -> true = true) ->
+  rpadclip_g target p c = Ok c' -> Valid None c' /\ clen c <= clen c' /\ uplain u c'.
 Proof.
-  intros Ht p c cc c' HV Hc HQ _ H. unfold rpadclip_g in H. apply bind_Ok in H as ([bs cc0] & Hb & H). cbn [fst snd] in H.
+  intros Ht u p c cc c' HV Hc HQ _ H. unfold rpadclip_g in H. apply bind_Ok in H as ([bs cc0] & Hb & H). cbn [fst snd] in H.
   inversion H; subst.
   destruct (list_bounds_valid _ _ _ _ HV Hb) as (Hc0 & Hn & Hp & Hvc). rewrite Hc in Hc0. inversion Hc0; subst cc0.
-  destruct (Qpad_inv _ _ _ HV Hc HQ) as (-> & Ho & Hcc).
+  destruct (Qpad_inv _ _ _ _ HV Hc HQ) as (-> & Ho & Hcc).
   split; [|split; [|split; reflexivity]].
   - constructor; [exact I|exact Ht|apply zlen_nonneg|intros _; apply pad_content_valid; auto].
   - cbn [clen]. rewrite !zlen_map. destruct (target =? 0) eqn:E; [exact Hn|].
@@ -488,7 +493,7 @@ Qed.
 (* ---------------------------------------------------------------- combinations *)
 (* The model represents the k-th tuple field as an IndexedArray over the content of the list at the axis (the C++
    carries the content instead): invalid when that content is option-type, which [Qcomb] excludes. *)
-Definition Qcomb (_ : option akind) (c : content) : bool :=
+Definition Qcomb (_ : bool) (_ : option akind) (c : content) : bool :=
   match list_content c with Some cc => negb (optionlike cc) | None => false end.
 
 Lemma combs_cons {A} k (a : A) l : combs (S k) (a :: l) = map (cons a) (combs k l) ++ combs (S k) l.
@@ -521,9 +526,9 @@ Proof.
   - rewrite (IH _ _ Hc). apply zlen_map.
 Qed.
 
-Lemma comb_Hgv n repl p c cc c' :
-  Valid p c -> list_content c = Some cc -> Qcomb p c = true -> (is_strk p = true -> false = true) ->
-  comb_g n repl p c = Ok c' -> Valid None c' /\ clen c <= clen c' /\ plain c'.
+Lemma comb_Hgv n repl u p c cc c' :
+  Valid p c -> list_content c = Some cc -> Qcomb u p c = true -> (is_strk p = true -> false = true) ->
+  comb_g n repl p c = Ok c' -> Valid None c' /\ clen c <= clen c' /\ uplain u c'.
 Proof.
   intros HV Hc HQ Hs H. unfold comb_g in H. apply bind_Ok in H as ([bs cc0] & Hb & H). cbn [fst snd] in H. inversion H; subst.
   destruct (list_bounds_valid _ _ _ _ HV Hb) as (Hc0 & Hn & Hp & Hvc). rewrite Hc in Hc0. inversion Hc0; subst cc0.
